@@ -339,6 +339,8 @@ pub struct BatchResult {
 	pub components: Value,
 	pub teardown_nonzero: u64,
 	pub cyclic_garbage_runs: u64,
+	/// the harness itself failed (e.g. a plan generator panicked): nothing is believed
+	pub harness_errors: Vec<String>,
 }
 
 pub fn plan_for<S: Scenario>(s: &S, seed: u64, run: u64, tier: Tier) -> S::Plan {
@@ -347,6 +349,7 @@ pub fn plan_for<S: Scenario>(s: &S, seed: u64, run: u64, tier: Tier) -> S::Plan 
 }
 
 pub fn run_batch<S: Scenario>(s: &S, cfg: &BatchCfg) -> BatchResult {
+	install_panic_hook();
 	let start = Instant::now();
 	let cutoff = AtomicU64::new(u64::MAX); // runs with index >= cutoff are skipped after a violation
 	let merged = Mutex::new(BatchResult {
@@ -373,7 +376,15 @@ pub fn run_batch<S: Scenario>(s: &S, cfg: &BatchCfg) -> BatchResult {
 							break;
 						}
 					}
-					let plan = plan_for(s, cfg.seed, i, cfg.tier);
+					// a panic in our own generator is a harness error, never a verdict
+					let plan = match catch_unwind(AssertUnwindSafe(|| plan_for(s, cfg.seed, i, cfg.tier))) {
+						Ok(p) => p,
+						Err(_) => {
+							let (msg, loc) = take_last_panic().unwrap_or_default();
+							local.harness_errors.push(format!("plan generator of {} panicked for run {i} at {loc}: {msg}", s.name()));
+							break;
+						}
+					};
 					let want_log = (i as usize) < cfg.samples;
 					let out = run_one(s, &plan, want_log, cfg.strict_teardown);
 					local.runs += 1;
@@ -439,6 +450,7 @@ pub fn run_batch<S: Scenario>(s: &S, cfg: &BatchCfg) -> BatchResult {
 					e.0 += n;
 				}
 				m.samples.extend(local.samples);
+				m.harness_errors.extend(local.harness_errors);
 				m.teardown_nonzero += local.teardown_nonzero;
 				m.cyclic_garbage_runs += local.cyclic_garbage_runs;
 			});
